@@ -374,7 +374,11 @@ func (g *cgGraph) derive() bool {
 		if o == e && e.once {
 			return false
 		}
-		g.add(&cgExpr{fo: "{PA=" + e.fo + "; PB=" + o.fo + "}", ty: cgCon("Pr", e.ty, o.ty), ground: cgCon("Pr", e.ground, o.ground), eqs: cgJoin(e.eqs, o.eqs)}, e, o)
+		lit := "{PA=" + e.fo + "; PB=" + o.fo + "}"
+		if g.r.Intn(2) == 0 {
+			lit = "{PB=" + o.fo + "; PA=" + e.fo + "}" // fields are matched by NAME, in any order
+		}
+		g.add(&cgExpr{fo: lit, ty: cgCon("Pr", e.ty, o.ty), ground: cgCon("Pr", e.ground, o.ground), eqs: cgJoin(e.eqs, o.eqs)}, e, o)
 	case 7: // destructuring let of something that is (ground) a pair
 		if e.ground.v != "" || e.ground.head != "*" {
 			return false
